@@ -357,7 +357,10 @@ def replay(rec):
                         w[a, b] = model.get("w_%d_%d" % (min(a, b), max(a, b)), 0.5)
         u0 = None if u is None else u.copy()
         w0 = None if w is None else w.copy()
-        m = mm.HyMMSBM(K=K, u=u, w=w, assortative=assort, max_hye_size=3, seed=spec.get("seed", 0))
+        extra_kw = {}
+        if spec.get("w_prior") == "array":
+            extra_kw["w_prior"] = np.ones((K, K)) * 2.0
+        m = mm.HyMMSBM(K=K, u=u, w=w, assortative=assort, max_hye_size=3, seed=spec.get("seed", 0), **extra_kw)
         m.fit(h, n_iter=n_iter)
         bad = []
         if u0 is not None and not np.allclose(m.u, u0, rtol=1e-12, atol=0):
